@@ -34,6 +34,30 @@ CHECKS = {
             {"harness": "c09_tp", "flavour": "asan", "runs": {"quick": 50000, "thorough": 2000000}, "wall": {"quick": 50, "thorough": 1500}},
         ],
     },
+    "C07": {
+        "level": "exploration",
+        "rule": ("each run = one cell of the TLS configuration matrix drawn with a bias towards one or two deviations from a working set-up: TLS context enabled / mode set or not, "
+                 "TLS requested or not, verifyPeer, trust anchor (right CA, other CA, none) x system trust store (empty, holding the right CA), configured minVersion "
+                 "(unset, 1.0-1.3) and cipher string (incl. @SECLEVEL=0), own certificate (client: none/valid/untrusted/expired; server: valid/expired/not-yet-valid/self-signed/key "
+                 "mismatch), target by IP or by one of two host names, connect vs connectSync, data queued before the handshake ends; peer = OpenSSL with certificate {valid, "
+                 "self-signed, expired, not yet valid, other name, other CA} / client certificate {valid, none, untrusted, expired}, protocol ceiling 1.0-1.3, optional client-cert "
+                 "demand, or a plaintext peer, a garbage peer (optionally with a TLS record header), a peer that resets mid-handshake, a silent peer; simulated wall clock in 2030, "
+                 "2036, 2046 or jumping to 2046 after the contexts were built; drawn segmentation, latency, short reads/writes, ET/LT; three jobs: iora as client, iora as server, "
+                 "HttpClient (incl. TLS configuration set after first use, names resolved through a simulated DNS server). A rule table written from the property text decides per "
+                 "cell whether a session MAY exist; observed: onConnect/connectSync/HttpClient result, data delivered by onData, what the OpenSSL peer decrypts and its negotiated "
+                 "version, and every byte iora put on the wire (markers in clear, first byte a handshake record)"),
+        "real": ["iora::network::TcpEngine TLS paths (initTls, doConnect, accept, driveHandshake, doSend queueing)", "iora::network::Transport", "iora::network::HttpClient + DnsClient (http job)",
+                 "OpenSSL 3 (real handshakes, real X.509 verification; randomness made deterministic through RAND_set_rand_method)"],
+        "stub": COMMON_STUB + ["certificates: a fixed set under certs/ (generated by certs/gen.sh), validity judged against the simulated wall clock"],
+        "assumptions": ["sessions that the rule table allows are not required to be established (the property is an only-if); how many were is reported as c07.allowed_and_established",
+                        "connections made to an IP literal need no name match (property: 'for connections made to a host name')",
+                        "a server's verifyPeer means client certificates are required"],
+        "jobs": [
+            {"harness": "c07_tls", "mode": "client", "flavour": "asan", "runs": {"quick": 1400, "thorough": 150000}, "wall": {"quick": 90, "thorough": 2400}, "seed_off": 1},
+            {"harness": "c07_tls", "mode": "server", "flavour": "asan", "runs": {"quick": 1400, "thorough": 150000}, "wall": {"quick": 70, "thorough": 2400}, "seed_off": 2},
+            {"harness": "c07_tls", "mode": "http", "flavour": "asan", "runs": {"quick": 3000, "thorough": 300000}, "wall": {"quick": 40, "thorough": 2400}, "seed_off": 3},
+        ],
+    },
     "C08": {
         "level": "exploration",
         "rule": ("each run = one seeded plan (1-4 actor threads: schedule with delays of zero/sub-tick/bucket- and level-boundary/far-future, periodic, cancel, "
